@@ -114,6 +114,9 @@ impl EstablishProof {
         let close_state_blinding_factor =
             CloseStateBlindingFactor(close_state_proof_builder.message_blinding_factor());
 
+        // Commitment scalars that are revealed in the proof (for the public values).
+        let revealed_commitment_scalars = *close_state_proof_builder.conjunction_commitment_scalars();
+
         // Form a challenge.
         let challenge = ChallengeBuilder::new()
             // Incorporate public values.
@@ -125,6 +128,11 @@ impl EstablishProof {
             // Incorporate commitments and commitment scalars from proofs.
             .with(&state_proof_builder)
             .with(&close_state_proof_builder)
+            // Incorporate the revealed commitment scalars.
+            .with(&revealed_commitment_scalars[0])
+            .with(&revealed_commitment_scalars[1])
+            .with(&revealed_commitment_scalars[3])
+            .with(&revealed_commitment_scalars[4])
             // Incorporate transcript context.
             .with_bytes(&context.as_bytes())
             .finish();
@@ -173,6 +181,11 @@ impl EstablishProof {
             // Incorporate commitment and commitment scalars from proofs.
             .with(&self.state_proof)
             .with(&self.close_state_proof)
+            // Incorporate the revealed commitment scalars.
+            .with(&self.channel_id_commitment_scalar)
+            .with(&self.close_tag_commitment_scalar)
+            .with(&self.customer_balance_commitment_scalar)
+            .with(&self.merchant_balance_commitment_scalar)
             // Incorporate transcript context.
             .with_bytes(context.as_bytes())
             .finish();
@@ -419,6 +432,12 @@ impl PayProof {
             ),
         };
 
+        // Commitment scalars that are revealed in the proof (for the public values).
+        let old_nonce_commitment_scalar =
+            old_pay_token_proof_builder.conjunction_commitment_scalars()[1];
+        let close_tag_commitment_scalar =
+            close_state_proof_builder.conjunction_commitment_scalars()[1];
+
         // Form a challenge.
         let challenge = ChallengeBuilder::new()
             // integrate keys and constants
@@ -434,6 +453,9 @@ impl PayProof {
             .with(&old_pay_token_proof_builder)
             .with(&customer_range_constraint_builder)
             .with(&merchant_range_constraint_builder)
+            // integrate the revealed commitment scalars
+            .with(&old_nonce_commitment_scalar)
+            .with(&close_tag_commitment_scalar)
             // integrate context
             .with_bytes(context.as_bytes())
             .finish();
@@ -494,6 +516,9 @@ impl PayProof {
             .with(&self.old_pay_token_proof)
             .with(&self.customer_balance_proof)
             .with(&self.merchant_balance_proof)
+            // integrate the revealed commitment scalars
+            .with(&self.old_nonce_commitment_scalar)
+            .with(&self.close_tag_commitment_scalar)
             // integrate context
             .with_bytes(context.as_bytes())
             .finish();
